@@ -296,6 +296,12 @@ def library(draw, lang=None, max_decls=8, with_python=None, with_lua=None, featu
             lib["decls"].append(e)
             lib["decls"].append(draw(class_decl(lang, names, [e["name"]], force_member=e["name"])))
             continue
+        if i == must_pos and must == "nsenum" and "namespace" in kinds and "enum" in kinds:
+            # namespaces.rst / namespace.yaml: a namespace that holds nothing but an enumeration (its C header has
+            # content, its C implementation file has none)
+            lib["decls"].append(dict(kind="namespace", name=names.fresh("space"),
+                                     decls=[draw(enum_decl(names, scoped_ok=(lang == "c++" and not wp)))]))
+            continue
         if i == must_pos and (must in kinds or (must == "deepns" and "namespace" in kinds)):
             k = must            # stratified sampling: this library carries the required kind of declaration
         force_deep = k == "deepns"
@@ -600,7 +606,7 @@ def sample(strategy, seed_value, n):
 
 
 STRATA = [None, "class", "namespace", "deepns", "overload", "default", "template", "generic", "enum", "struct", "classpair",
-          "ctemplate", "enummember", "derived"]
+          "ctemplate", "enummember", "derived", "nsenum"]
 
 
 def sample_models(seed_value, n, **kw):
